@@ -62,6 +62,20 @@ func pathUnescaped(p string) string {
 	return u
 }
 
+// foldHost lower-cases scheme and authority of a URL: how a host name is spelt (IdP.Example vs idp.example) is not
+// what this property is about, as long as metadata and responses agree (which the Issuer clauses judge).
+func foldHost(u string) string {
+	i := strings.Index(u, "://")
+	if i < 0 {
+		return u
+	}
+	j := strings.IndexAny(u[i+3:], "/?#")
+	if j < 0 {
+		return strings.ToLower(u)
+	}
+	return strings.ToLower(u[:i+3+j]) + u[i+3+j:]
+}
+
 func randEp(rng *rand.Rand, used map[string]bool, name string) epConf {
 	for {
 		c := epConf{Mode: []string{"default", "default", "path", "path_noslash", "url"}[rng.Intn(5)]}
@@ -244,7 +258,7 @@ func c11Case(r *core.Run, idx int, rng *rand.Rand) {
 		if eps["meta"].Mode == "url" {
 			wantEntity = eps["meta"].URL
 		}
-		if mv.EntityID != wantEntity {
+		if foldHost(mv.EntityID) != foldHost(wantEntity) {
 			viol(mv.Call, "entity_id", fmt.Sprintf("entityID %q, expected %q", mv.EntityID, wantEntity))
 		}
 		// advertised locations map onto routes
@@ -264,7 +278,7 @@ func c11Case(r *core.Run, idx int, rng *rand.Rand) {
 				}
 				return got[0].Location
 			}
-			if !strings.HasPrefix(got[0].Location, base) || (got[0].Location[len(base):] != c.route(def) && pathUnescaped(got[0].Location[len(base):]) != c.route(def)) {
+			if !strings.HasPrefix(foldHost(got[0].Location), foldHost(base)) || (got[0].Location[len(base):] != c.route(def) && pathUnescaped(got[0].Location[len(base):]) != c.route(def)) {
 				viol(mv.Call, "advertised_"+kind, fmt.Sprintf("Location %q does not map onto the route %q under issuer %q", got[0].Location, c.route(def), issuer))
 			}
 			return got[0].Location
@@ -454,7 +468,7 @@ func c11Case(r *core.Run, idx int, rng *rand.Rand) {
 					viol(mt.Call, "panic", mt.Call.Panic)
 				} else if mt.Err == "" {
 					r.Count("metadata_served_despite_transient_key_fault", 1)
-					if mt.EntityID != wantEntity {
+					if foldHost(mt.EntityID) != foldHost(wantEntity) {
 						viol(mt.Call, "entity_id", fmt.Sprintf("after a transient key-storage failure: entityID %q, expected %q", mt.EntityID, wantEntity))
 					}
 					if len(mt.SSO) == 0 || mt.SSO[0].Location != ssoLoc {
@@ -547,7 +561,7 @@ func c11ConcurrentHosts(r *core.Run, idx int, rng *rand.Rand) {
 					return
 				}
 				base := "https://" + h + "/saml"
-				if mv.EntityID != base+"/metadata" {
+				if foldHost(mv.EntityID) != foldHost(base+"/metadata") {
 					viol("entity_id", fmt.Sprintf("entityID %q in the document served for host %s", mv.EntityID, h))
 					return
 				}
